@@ -237,6 +237,8 @@ def run(prog, rep):
     stream_window.check(prog, rep, 'R3.6', floor=9)
     keycmp.check(prog, rep)
     keycmp.check_array_key(prog, rep, 'R3.11')
+    from rules import csv_header
+    csv_header.check(prog, rep, 'R3.12')
     from rules import msgpack_tables as _mt
     rep.rule('R3.10', 'ReadExtSize (both reader copies): the length field of k = 1, 2, 4 bytes is read once, unsigned, and returned; unread values are skipped by their real length', floor=6)
     _mt.check_ext_size(prog, rep, 'R3.10')
